@@ -18,7 +18,9 @@ Open Scope N_scope.
 
 Inductive cid := CData (n : N) | CNode (ls : list cid).
 
-Record block := mkblock { bcid : N; bsize : N; blinks : list N }.
+(* bswallow: the importer ignored an error returned by DAGService.Add for this block and went on
+   (its contract is to stop; go-unixfs' balanced layout does not for the first leaf of a file, see docs) *)
+Record block := mkblock { bcid : N; bsize : N; blinks : list N; bswallow : bool }.
 
 Inductive outcome := POk | PIpfs | PRpc.     (* nil | error from the daemon | gorpc server/client/authorization error *)
 Definition is_err (o : outcome) : bool := match o with POk => false | _ => true end.
@@ -167,28 +169,33 @@ Definition new_shard (e : env) (s : io) : (err + shard) * io :=
   end.
 
 (* ---- adder/sharding/dag_service.go ---- *)
+(* ingestBlock, first part: "if we have no currentShard, create one" *)
+Definition ensure_shard (e : env) (st : sst) : (err + shard) * sst :=
+  match cur st with
+  | Some sh => (inr sh, st)
+  | None => match new_shard e (sio st) with
+            | (inl er, s) => (inl er, set_io st s)
+            | (inr sh, s) => (inr sh, set_cur st (Some sh) s)
+            end
+  end.
+
+(* ingestBlock, "add the block to it if it fits and return": shard.AddLink, then the shard's BlockAdder *)
+Definition add_link (e : env) (b : block) (sh : shard) (st1 : sst) : option err * sst :=
+  let sh1 := mkshard (sh_allocs sh) (sh_ba sh) (sh_links sh ++ [bcid b]) (sh_size sh + bsize b) in
+  match do_put e (CData (bcid b)) (sh_ba sh) (sio st1) with
+  | (Some ba', s) => (None, set_cur st1 (Some (mkshard (sh_allocs sh1) ba' (sh_links sh1) (sh_size sh1))) s)
+  | (None, s) => (Some EPutFail, set_cur st1 (Some sh1) s)
+  end.
+
 (* ingestBlock (recursive retry after a flush; fuel 2 always suffices, see Proofs) *)
 Fixpoint ingest (fuel : nat) (e : env) (b : block) (st : sst) : option err * sst :=
   match fuel with
   | O => (Some EFuel, st)
   | S f =>
-      let '(r, st1) := match cur st with
-                       | Some sh => (inr sh, st)
-                       | None => match new_shard e (sio st) with
-                                 | (inl er, s) => (inl er, set_io st s)
-                                 | (inr sh, s) => (inr sh, set_cur st (Some sh) s)
-                                 end
-                       end in
-      match r with
-      | inl er => (Some er, st1)
-      | inr sh =>
-          if sh_size sh + bsize b <? e_limit e then
-            (* AddLink, then the shard's BlockAdder *)
-            let sh1 := mkshard (sh_allocs sh) (sh_ba sh) (sh_links sh ++ [bcid b]) (sh_size sh + bsize b) in
-            match do_put e (CData (bcid b)) (sh_ba sh) (sio st1) with
-            | (Some ba', s) => (None, set_cur st1 (Some (mkshard (sh_allocs sh1) ba' (sh_links sh1) (sh_size sh1))) s)
-            | (None, s) => (Some EPutFail, set_cur st1 (Some sh1) s)
-            end
+      match ensure_shard e st with
+      | (inl er, st1) => (Some er, st1)
+      | (inr sh, st1) =>
+          if sh_size sh + bsize b <? e_limit e then add_link e b sh st1
           else if sh_size sh =? 0 then (Some ETooBig, st1)
           else match flush e st1 with
                | (Some er, st2) => (Some er, st2)
@@ -232,7 +239,7 @@ Fixpoint add_all {S} (add : block -> S -> option err * S) (bs : list block) (st 
   | [] => (None, st)
   | b :: r => match add b st with
               | (None, st') => add_all add r st'
-              | (Some er, st') => (Some er, st')
+              | (Some er, st') => if bswallow b then add_all add r st' else (Some er, st')
               end
   end.
 
